@@ -110,6 +110,30 @@ def judge(case, drv):
                 g = rs['dump']['slots'][0]['g']
                 if g != want and not (want >= NGLYPHS):
                     raise Violation('initial-slot-glyph-differs-from-cmap', dict(case, chars=[cp]), 'U+%04X engine gid=%d reference=%d' % (cp, g, want))
+    if r['loaded'] and case.get('chars'):
+        # the same characters inside ONE text: a lookup must not depend on the character looked up before it. Each character is
+        # preceded by the code point that shares its low 16 bits in the other plane range and is then repeated (seeds S7-C13 and
+        # S8-C08 were one-entry "same character as last time" memos keyed on 16 bits / left stale by a failed lookup).
+        ok = lambda u: 0 < u <= 0x10FFFF and not 0xD800 <= u <= 0xDFFF
+        seq = []
+        for cp in case['chars']:
+            if not ok(cp): continue
+            al = cp + 0x10000 if cp < 0x10000 else cp & 0xFFFF
+            seq += ([al] if ok(al) else []) + [cp, cp]
+        seq = seq[:96]
+        pseudo = dict((u, g) for u, g in reversed(c.get('pseudos', [])))
+        wants = [ref_lookup(c, u) or pseudo.get(u, 0) for u in seq]
+        if seq:
+            try:
+                rs = drv.call(b'S' + struct.pack('<IBB', fid, 0, case.get('opts', 0)) + shape_params(encode_text(seq, 4), enc=4))
+            except DriverCrash as e:
+                raise Violation('sanitizer:' + e.kind + ':' + e.summary, dict(case, text=seq), e.stderr[-1500:])
+            if rs.get('seg') and rs['dump']['n'] == len(seq):
+                for i, sl in enumerate(rs['dump']['slots']):
+                    if sl['g'] != wants[i] and not (wants[i] >= NGLYPHS):
+                        raise Violation('slot-glyph-in-text-differs-from-cmap', dict(case, text=seq),
+                                        'slot %d U+%04X engine gid=%d reference=%d (previous character U+%04X)' % (i, seq[i], sl['g'], wants[i], seq[i - 1] if i else 0))
+                r['text_slots_checked'] = len(seq)
     drv.drop_font(fid)
     return r
 
@@ -224,8 +248,14 @@ def worker(ctx):
         @deco
         @given(cmap_strategy(), st.lists(st.one_of(st.sampled_from(BOUND + [0xFFFF, 0x10000, 0x10FFFF]), st.integers(0, 0x10FFFF)), max_size=6), st.sampled_from([0, 4, 6]))
         def t(c, chars, opts):
-            case = dict(kind='synth', cmap=c, chars=[x for x in chars if x] + [u for u, g in c.get('pseudos', [])][:6], opts=opts)
+            own = []          # code points the generated cmap itself maps (segment / group ends): the in-text clause needs mapped characters
+            for t4 in c['f4']:
+                for sg in t4['segs'][:3]: own += [sg[0], sg[1]]
+            for g in (c.get('f12') or {}).get('groups', [])[:3]: own += [g[0], g[1]]
+            own = [u for u in dict.fromkeys(own) if 0 < u < 0xFFFF or 0xFFFF < u <= 0x10FFFF][:8]
+            case = dict(kind='synth', cmap=c, chars=[x for x in chars if x] + [u for u, g in c.get('pseudos', [])][:6] + own, opts=opts)
             r = judge(case, drv)
+            rec.count('slots_checked_inside_a_text', r.get('text_slots_checked', 0))
             nseg = sum(len(t['segs']) for t in c['f4'])
             rec.evaluations += r['evaluations'] - 1
             rec.case(nontrivial_sig=json.dumps(c, sort_keys=True) if r['loaded'] and r['nontrivial'] else None,
